@@ -137,6 +137,63 @@ def run(fb, rep):
             rep.ok(R, "reset_stack: loops exit_scope while frames.len() > level")
         else:
             rep.violation(R, "reset-stack-shape", "reset_stack no longer pops frames in a loop", rs.where())
+        # (after finding 33) a frame that is unwound takes its values with it: the same loop removes values from the value stack
+        # (pop_many / clear / truncate).  exit_scope alone only pops `stack.frames`; the values of the failed run would stay on the
+        # stack as GC roots and count against the stack limit of every later evaluation.
+        vals = [c for c in rs.calls() if "stack::" in c.res and c.res.rsplit("::", 1)[-1] in ("pop_many", "clear", "truncate")]
+        if loops and any(c.bb in comp for comp in loops for c in vals if any(e.bb in comp for e in ex)):
+            rep.ok(R, "reset_stack: the unwinding loop also removes the values of each dropped frame")
+        else:
+            rep.violation(R, "reset-stack-keeps-values", "reset_stack pops the frames of a failed run but not their values: they stay on the value stack (rooted, and counted against the "
+                          "stack limit) so the VM is not as good as fresh after a failure", rs.where())
+    # the entries that push the callee and its arguments themselves also restore the value stack to its length before the call
+    n_v = 0
+    pool = list(fb.bodies.values()) + list(fb.pre.values())
+    seen_ids = set()
+    for b in pool:
+        if b.id in seen_ids or b.kind == "coroutine_post":
+            continue
+        seen_ids.add(b.id)
+        root = b.get("root") or b.id.split("::{closure")[0]
+        in_scope = (root.startswith("gluon_vm::api::function::Function::<") and (root.endswith("::call_first") or root.endswith("::call_async"))) \
+            or root.endswith("ThreadInternal::call_thunk_top") or root.endswith("ThreadInternal::execute_io_top")
+        if not in_scope:
+            continue
+        resets = [c for c in b.calls() if c.res.endswith("thread::reset_stack") or c.res.endswith("thread::reset_stack_after_error")]
+        if not resets:
+            continue
+        vcalls = [c.bb for c in b.calls() if c.res.endswith("thread::reset_stack_values")]
+        rets = {i for i, blk in enumerate(b.blocks) if blk["t"][0] == "ret"}
+        for c in resets:
+            n_v += 1
+            # error propagation of reset_stack's own failure (`?`) is not a normal completion of the unwinding
+            if c.target is not None and rets & b.reachable(c.target, avoid_blocks=vcalls) and not _only_via_err_of(b, c, vcalls, rets):
+                rep.violation(R, "entry-keeps-pushed-values|%s" % _norm(root), "%s unwinds the frames of a failed call but can return without restoring the value stack to its length before "
+                              "the call (reset_stack_values): the function and arguments it pushed stay on the stack" % b.id, c.where())
+            else:
+                rep.ok(R, "%s: the value stack is restored after the frames are unwound" % b.id)
+    rep.floor(R, "entry unwinding sites that restore the value stack", n_v, 10)
+
+
+def _only_via_err_of(b, c, vcalls, rets):
+    """True when every path from the reset call to a return that avoids reset_stack_values goes through the Err edge of a
+    `?` applied to the reset call's own result (reset_stack itself failed: the stack could not be unwound)"""
+    if c.dest is None:
+        return False
+    from .common import enum_switches_any
+    der = flow.derived_locals(b, c.dest[0])
+    # results of Try::branch on the reset result
+    br = [x for x in b.calls() if x.res.endswith("Try>::branch") and x.args and op_place(x.args[0]) is not None and op_place(x.args[0])[0] in der]
+    if not br:
+        return False
+    avoid_edges = []
+    for x in br:
+        for bb, place, targets, otherwise in enum_switches_any(b):
+            if place[0] == x.dest[0]:
+                # ControlFlow::Break = 1
+                if 1 in targets:
+                    avoid_edges.append((bb, targets[1]))
+    return not (rets & b.reachable(c.target, avoid_blocks=vcalls, avoid_edges=avoid_edges))
 
 
 def _norm(key):
